@@ -1,6 +1,7 @@
 package checks
 
 import (
+	"encoding/hex"
 	"errors"
 	"fmt"
 	"sync"
@@ -34,7 +35,7 @@ func init() {
 			"only well-formed chain data is served (so checkptr inside the JSON decoder is not provoked)",
 			"reports with a stack that holds no shovel frame are harness or third-party issues and are reported as inconclusive, not as violations",
 		},
-		NCases: func(tier string) int { return c18Pipeline(tier) + c18FirstUseCases(tier) },
+		NCases:           func(tier string) int { return c18Pipeline(tier) + c18FirstUseCases(tier) },
 		Run:              c18Run,
 		Race:             true,
 		CrashIsViolation: true,
@@ -60,12 +61,14 @@ func c18FirstUseCases(tier string) int {
 }
 
 var c18Plans = [][]string{
-	{"tx_value", "log_addr"},         // l,b
-	{"block_time", "log_idx"},        // l,h
-	{"tx_status"},                    // r
-	{"trace_action_from", "tx_hash"}, // b,t
-	{"log_addr"},                     // l
-	{"tx_gas_used", "tx_input"},      // b,r
+	{"tx_value", "log_addr"},                            // l,b
+	{"block_time", "log_idx"},                           // l,h
+	{"tx_status"},                                       // r
+	{"trace_action_from", "tx_hash"},                    // b,t
+	{"log_addr"},                                        // l
+	{"tx_gas_used", "tx_input"},                         // b,r
+	{"tx_status", "trace_action_from"},                  // r,t: transactions created on demand by both attachments
+	{"block_time", "tx_gas_used", "trace_action_value"}, // h,r,t
 }
 
 func c18Run(c *vk.Case) {
@@ -112,6 +115,15 @@ func c18Run(c *vk.Case) {
 		if isLog {
 			d.EventName = "Probe"
 			d.Inputs = evInputs
+			if twoSrc {
+				// filter arguments: one list in the configuration, read by every task built from it
+				d.InFilter["v"] = model.Filter{Op: "gt", Arg: []string{"1"}}
+				for j := range d.Block {
+					if d.Block[j].Name == "log_addr" {
+						d.Block[j].Filter = model.Filter{Op: "contains", Arg: []string{"0x" + hex.EncodeToString(addrs[0]), "0x" + hex.EncodeToString(addrs[1])}}
+					}
+				}
+			}
 		}
 		decls = append(decls, d)
 	}
